@@ -1,124 +1,64 @@
 import OxiVerif.Lemmas.C01Filters
 /-!
-Helper lemmas for C01: the ASCII85 decoder never panics on data without the characters `s t u`
-(every group value then fits `u32`), for every length, white space, `z`, `<~ ~>` placement and limit.
+Helper lemmas for C01: the ASCII85 decoder (after the repair: `ascii85_group_value` is a checked
+fold) never panics — for every byte content, length, white space, `z`, `<~ ~>` placement and limit.
 -/
 namespace OxiVerif.C01
 open Outcome
 
-/-- a five-character group whose first character is below `s` fits `u32` -/
-theorem gsum_small (a b c d e : Nat) (ha : a < 115) (hb : b ≤ 117) (hc : c ≤ 117) (hd : d ≤ 117)
-    (he : e ≤ 117) : gsum 0 [a, b, c, d, e] < 2 ^ 32 := by
-  simp only [gsum, pow85]; omega
+theorem groupHorner_np : ∀ (g : List Nat) (v : Nat), (groupHorner v g).isPanic = false
+  | [], v => rfl
+  | c :: rest, v => by
+    rw [groupHorner]
+    split
+    · exact groupHorner_np rest _
+    · rfl
 
-theorem groupValue_small (a b c d e : Nat) (ha : a < 115) (hb : b ≤ 117) (hc : c ≤ 117) (hd : d ≤ 117)
-    (he : e ≤ 117) : ∃ v, groupValue [a, b, c, d, e] = .ok v := by
-  have h := gsum_small a b c d e ha hb hc hd he
-  have := (groupSum_spec [a, b, c, d, e] 0 0 (by decide)).2 (by simpa [U32] using h)
-  exact ⟨_, by simpa [groupValue] using this⟩
+theorem groupValue_np (g : List Nat) : (groupValue g).isPanic = false := groupHorner_np g 0
 
 theorem extendBounded_np (res bs : Bytes) (max : Nat) : (extendBounded res bs max).isPanic = false := by
   unfold extendBounded; split <;> rfl
 
-def Small (l : Bytes) : Prop := ∀ b ∈ l, b < 115
-
-/-- none of the characters `s`, `t`, `u` -/
-def NoSTU (l : Bytes) : Prop := ∀ b ∈ l, b < 115 ∨ 117 < b
-
-theorem a85Tail_np (max : Nat) (group res : Bytes) (hg : Small group) (hl : group.length < 5) :
-    (a85Tail max group res).isPanic = false := by
+theorem a85Tail_np (max : Nat) (group res : Bytes) : (a85Tail max group res).isPanic = false := by
   unfold a85Tail
   split
   · rfl
-  · match group, hg, hl with
-    | [], _, _ => simp at *
-    | [a], hg, _ =>
-      obtain ⟨v, hv⟩ := groupValue_small a 117 117 117 117 (hg a (by simp)) (by omega) (by omega) (by omega) (by omega)
-      have : [a] ++ List.replicate (5 - [a].length) 117 = [a, 117, 117, 117, 117] := rfl
-      rw [this]; dsimp only; rw [hv, Outcome.bind_ok]; exact extendBounded_np _ _ _
-    | [a, b], hg, _ =>
-      have hb := hg b (by simp)
-      obtain ⟨v, hv⟩ := groupValue_small a b 117 117 117 (hg a (by simp)) (by omega) (by omega) (by omega) (by omega)
-      have : [a, b] ++ List.replicate (5 - [a, b].length) 117 = [a, b, 117, 117, 117] := rfl
-      rw [this]; dsimp only; rw [hv, Outcome.bind_ok]; exact extendBounded_np _ _ _
-    | [a, b, c], hg, _ =>
-      have hb := hg b (by simp)
-      have hc := hg c (by simp)
-      obtain ⟨v, hv⟩ := groupValue_small a b c 117 117 (hg a (by simp)) (by omega) (by omega) (by omega) (by omega)
-      have : [a, b, c] ++ List.replicate (5 - [a, b, c].length) 117 = [a, b, c, 117, 117] := rfl
-      rw [this]; dsimp only; rw [hv, Outcome.bind_ok]; exact extendBounded_np _ _ _
-    | [a, b, c, d], hg, _ =>
-      have hb := hg b (by simp)
-      have hc := hg c (by simp)
-      have hd := hg d (by simp)
-      obtain ⟨v, hv⟩ := groupValue_small a b c d 117 (hg a (by simp)) (by omega) (by omega) (by omega) (by omega)
-      have : [a, b, c, d] ++ List.replicate (5 - [a, b, c, d].length) 117 = [a, b, c, d, 117] := rfl
-      rw [this]; dsimp only; rw [hv, Outcome.bind_ok]; exact extendBounded_np _ _ _
-    | _ :: _ :: _ :: _ :: _ :: _, _, hl => simp at hl; omega
+  · apply not_isPanic_bind _ _ (groupValue_np _)
+    intro v _
+    exact extendBounded_np _ _ _
 
-theorem a85Loop_np (max : Nat) : ∀ (inp group res : Bytes), NoSTU inp → Small group → group.length < 5 →
-    (a85Loop max inp group res).isPanic = false
-  | [], group, res, _, hg, hl => by rw [a85Loop]; exact a85Tail_np max group res hg hl
-  | c :: rest, group, res, hi, hg, hl => by
-    have hrest : NoSTU rest := fun b hb => hi b (List.mem_cons_of_mem _ hb)
-    have hc : c < 115 ∨ 117 < c := hi c (by simp)
+theorem a85Loop_np (max : Nat) : ∀ (inp group res : Bytes), (a85Loop max inp group res).isPanic = false
+  | [], group, res => by rw [a85Loop]; exact a85Tail_np max group res
+  | c :: rest, group, res => by
     unfold a85Loop
     by_cases h1 : (c == 126) = true
     · rw [if_pos h1]
       split
-      · exact a85Tail_np max group res hg hl
+      · exact a85Tail_np max group res
       · rfl
     · rw [if_neg h1]
       by_cases h2 : (c == 122 && group.isEmpty) = true
       · rw [if_pos h2]
         apply not_isPanic_bind _ _ (extendBounded_np _ _ _)
         intro res' _
-        exact a85Loop_np max rest group res' hrest hg hl
+        exact a85Loop_np max rest group res'
       · rw [if_neg h2]
         by_cases h3 : (decide (33 ≤ c) && decide (c ≤ 117)) = true
         · rw [if_pos h3]
-          have hg' : Small (group ++ [c]) := by
-            intro b hb
-            rcases List.mem_append.mp hb with h | h
-            · exact hg b h
-            · have : b = c := by simpa using h
-              simp only [Bool.and_eq_true, decide_eq_true_eq] at h3
-              omega
           by_cases h5 : ((group ++ [c]).length == 5) = true
           · simp only [h5, if_true]
-            have hlen : (group ++ [c]).length = 5 := by simpa using h5
-            match hgc : group ++ [c], hg', hlen with
-            | [a, b, x, d, e], hs, _ =>
-              obtain ⟨v, hv⟩ := groupValue_small a b x d e (hs a (by simp))
-                (by have := hs b (by simp); omega) (by have := hs x (by simp); omega)
-                (by have := hs d (by simp); omega) (by have := hs e (by simp); omega)
-              rw [hv, Outcome.bind_ok]
-              apply not_isPanic_bind _ _ (extendBounded_np _ _ _)
-              intro res' _
-              exact a85Loop_np max rest [] res' hrest (fun _ h => by cases h) (by simp)
+            apply not_isPanic_bind _ _ (groupValue_np _)
+            intro v _
+            apply not_isPanic_bind _ _ (extendBounded_np _ _ _)
+            intro res' _
+            exact a85Loop_np max rest [] res'
           · simp only [h5]
-            have hlt : (group ++ [c]).length < 5 := by
-              have : (group ++ [c]).length ≠ 5 := by simpa using h5
-              simp at this ⊢; omega
-            exact a85Loop_np max rest (group ++ [c]) res hrest hg' hlt
+            exact a85Loop_np max rest (group ++ [c]) res
         · rw [if_neg h3]; rfl
 
-theorem a85Decode_np (data : Bytes) (max : Nat) (h : NoSTU data) : (a85Decode data max).isPanic = false := by
-  have hcs : NoSTU (data.filter (fun b => !isWs b)) := fun b hb => h b (List.mem_filter.mp hb).1
+theorem a85Decode_np (data : Bytes) (max : Nat) : (a85Decode data max).isPanic = false := by
   unfold a85Decode
   simp only
-  split
-  · rename_i rest heq
-    rw [heq] at hcs
-    exact a85Loop_np max rest [] [] (fun b hb => hcs b (by simp [hb])) (fun _ h => by cases h) (by simp)
-  · rename_i hd tl hne heq
-    rw [heq] at hcs
-    exact a85Loop_np max (60 :: tl) [] []
-      (fun b hb => by
-        rcases List.mem_cons.mp hb with rfl | hb
-        · decide
-        · exact hcs b (by simp [hb]))
-      (fun _ h => by cases h) (by simp)
-  · exact a85Loop_np max _ [] [] hcs (fun _ h => by cases h) (by simp)
+  split <;> exact a85Loop_np max _ [] []
 
 end OxiVerif.C01
